@@ -39,16 +39,18 @@ pub fn prop() -> Prop {
         id: "C05",
         describe,
         subs,
-        extra: super::no_extra,
-        replay_extra: super::no_replay_extra,
+        extra,
+        replay_extra,
         watchdog_s: (900, 14400),
     }
 }
 
 fn describe(ctx: &Ctx) {
-    ctx.rule("workbooks with 1..300 distinct styles (quick <=48, thorough <=300) drawn from the full product font(name,size,bold,italic,underline kind,strike,colour argb/theme+tint/indexed) x fill(pattern,fg,bg | linear gradient: angle, stops) x 5 border edges(style,colour)+diagonal flags x alignment(h,v,wrap,rotation) x number format(built-in id / custom code incl. XML specials) x protection(locked,hidden), built as families: a base, its single-attribute neighbours and adversarial neighbours for concatenated keys (name-digits x size, size x family, indexed x theme, border style x colour, fg<->bg, flag shifts, tint precision); every style sits on at least one cell, further cells/rows(+height,hidden)/columns(+width,hidden,bestFit, runs of equal adjacent columns and a one-attribute neighbour column) on 1..2 sheets; standard and light writer; save, reload, save, reload, save. Non-trivial = the workbook holds >=2 styles whose effective projections differ in exactly one attribute; distinct by full case");
+    ctx.rule("workbooks with 1..300 distinct styles (quick <=48, thorough <=300) drawn from the full product font(name,size,bold,italic,underline kind,strike,colour argb/theme+tint/indexed) x fill(pattern,fg,bg | linear gradient: angle, stops) x 5 border edges(style,colour)+diagonal flags x alignment(h,v,wrap,rotation) x number format(built-in id / custom code incl. XML specials) x protection(locked,hidden), built as families: a base, its single-attribute neighbours and adversarial neighbours for concatenated keys (name-digits x size, size x family, indexed x theme, border style x colour, fg<->bg, flag shifts, tint precision, every built-in number-format code as a custom code in exact / upper / lower / mixed letter case next to the built-in id); every style sits on at least one cell, further cells/rows(+height,hidden)/columns(+width,hidden,bestFit, runs of equal adjacent columns and a one-attribute neighbour column) on 1..2 sheets; standard and light writer; save, reload, save, reload, save. Non-trivial = the workbook holds >=2 styles whose effective projections differ in exactly one attribute; distinct by full case");
     ctx.assume("effective formatting = the 29 attributes the statement names, read through public getters; an absent component stands for the workbook default of that component (Style::get_default_value()), an absent attribute for its format default, palette-indexed colours for their ARGB, number formats are compared by code (normalisations N1-N5 in gen/style.rs)");
     ctx.assume("not generated: path gradients (the API has no fields for them), the vertical/horizontal inside edges (differential formats only), protection with only one of locked/hidden set (the getter cannot tell absent from false), font names / format codes with control characters, column auto-width");
+    ctx.rule("leg big: deterministic workbooks with n pairwise different styles, n = 254, 258, 300 (quick) + 4100, 65600 (thorough), same oracles");
+    ctx.assume("font family, charset, scheme and vertAlign are set on some fonts as carriers but are not compared: the statement's font attribute list does not name them");
     ctx.assume("'does not grow' is asserted as: no table has more children in generation n+1 than in generation n (n=1,2); shrinking is allowed");
 }
 
@@ -159,14 +161,15 @@ impl Case {
         }
         for c in &self.cols {
             let sheet = self.sheet_of(c.sheet);
-            let run = c.run.clamp(1, 8) as u32;
-            let start = c.col.clamp(1, 16384 - 9);
+            // runs may end exactly at XFD (16384); they are cut there
+            let start = c.col.clamp(1, 16384);
+            let run = (c.run.clamp(1, 8) as u32).min(16384 - start + 1);
             let style = c.style.map(|r| self.sidx(r));
             let width = c.width.map(|w| w.0);
             for k in 0..run {
                 put(&mut m, sheet, start + k, style, width, c.hidden, c.best_fit);
             }
-            if c.neighbour != 0 {
+            if c.neighbour != 0 && start + run <= 16384 {
                 let (mut s2, mut w2, mut h2, mut b2) = (style, width, c.hidden, c.best_fit);
                 match c.neighbour % 5 {
                     1 => w2 = Some(if width == Some(12.5) { 12.25 } else { 12.5 }),
@@ -321,6 +324,26 @@ fn judge_style(what: &str, target: &str, i: usize, exp: &[StyleProj], got: &Styl
     let d = e.diff(got);
     let (attr, ev, gv) = &d[0];
     let comp = component_of(attr);
+    // a text attribute that came back in another letter case only (font name, format code)
+    if d.len() == 1 && ev != gv && ev.eq_ignore_ascii_case(gv) {
+        let sibling = exp.iter().enumerate().find(|(j, o)| *j != i && o.0 == got.0);
+        return Some(Verdict::fail(
+            format!("{}{}/case-changed", gen, attr),
+            format!(
+                "{} {} style #{}: {} given as {:?}, reloaded as {:?} (letter case only){}",
+                what,
+                target,
+                i,
+                attr,
+                ev,
+                gv,
+                match sibling {
+                    Some((j, _)) => format!("; it is now indistinguishable from style #{}, which was given {:?}", j, gv),
+                    None => String::new(),
+                }
+            ),
+        ));
+    }
     let dflt = default_proj();
     if *got == dflt {
         return Some(Verdict::fail(
@@ -580,8 +603,43 @@ fn check(case: &Case, obs: &mut Obs) -> Verdict {
     if case.styles.iter().any(|s| s.fill.as_ref().map_or(false, |f| f.gradient.is_some())) {
         obs.class("fill:gradient");
     }
-    let near_pairs = (0..n).map(|i| ((i + 1)..n).filter(|&j| exp[i].distance(&exp[j]) == 1).count()).sum::<usize>();
-    obs.class(format!("near-pairs:{}", match near_pairs { 0 => "0", 1..=9 => "1-9", 10..=99 => "10-99", _ => "100+" }));
+    if n <= 400 {
+        let near_pairs = (0..n).map(|i| ((i + 1)..n).filter(|&j| exp[i].distance(&exp[j]) == 1).count()).sum::<usize>();
+        obs.class(format!("near-pairs:{}", match near_pairs { 0 => "0", 1..=9 => "1-9", 10..=99 => "10-99", _ => "100+" }));
+    }
+    // a custom code that is only a case variant of a built-in code, next to (any spelling of)
+    // that built-in in the same workbook
+    let codes: Vec<&str> = exp.iter().map(|e| e.0[26].as_str()).collect();
+    if case.styles.iter().any(|s| matches!(&s.numfmt, Some(NumFmtSpec::Code(c)) if is_builtin_case_variant(c))) {
+        obs.class("numfmt:case-variant-of-builtin");
+        let pair = (0..n).any(|i| is_builtin_case_variant(codes[i]) && (0..n).any(|j| codes[j] != codes[i] && codes[j].eq_ignore_ascii_case(codes[i])));
+        if pair {
+            obs.class("numfmt:case-variant+sibling-spelling");
+        }
+    }
+    // fills that carry one colour as fg only / as bg only (same pattern)
+    {
+        let fills: Vec<(&String, &String, &String)> = exp.iter().map(|e| (&e.0[7], &e.0[8], &e.0[9])).collect();
+        let swapped = fills.iter().any(|a| a.1 != "none" && a.2 == "none" && fills.iter().any(|b| b.0 == a.0 && b.1 == "none" && b.2 == a.1));
+        if swapped {
+            obs.class("fill:fg-only+bg-only-same-colour");
+        }
+    }
+    if cm.keys().any(|k| k.1 == 16384) {
+        obs.class("col:XFD");
+    }
+    if cm.values().any(|c| c.width == Some(0.0) && c.hidden == Some(true)) {
+        obs.class("col:hidden+width0");
+    }
+    if rm.keys().any(|k| k.1 == 1048576) {
+        obs.class("row:1048576");
+    }
+    if rm.values().any(|r| r.height == Some(0.0) && r.hidden == Some(true)) {
+        obs.class("row:hidden+height0");
+    }
+    if case.cell_model().keys().any(|k| k.1 == 1048576 && k.2 == 16384) {
+        obs.class("cell:XFD1048576");
+    }
 
     // spec -> Style through the public API; the hand-written expectation must agree with
     // what the getters say BEFORE saving, otherwise the case says nothing about save/reload
@@ -653,12 +711,14 @@ fn check(case: &Case, obs: &mut Obs) -> Verdict {
     // different value from its materialised twin that came from the file (font None vs
     // Some(default font) ...), so it legitimately gets an xf of its own; the statement only
     // forbids growth by saving.
+    // (`Style` has no Hash; its derived Debug text is equal exactly when the values are equal,
+    // there are no NaNs here)
     let mut distinct = 0u32;
     for phase in [1u8, 2] {
-        let mut seen: Vec<&Style> = Vec::new();
+        let mut seen: std::collections::HashSet<String> = std::collections::HashSet::new();
         for (i, s) in styles.iter().enumerate() {
-            if case.phase(Some(i)) == phase && !seen.iter().any(|d| *d == s) {
-                seen.push(s);
+            if case.phase(Some(i)) == phase {
+                seen.insert(format!("{:?}", s));
             }
         }
         distinct += seen.len() as u32;
@@ -681,8 +741,8 @@ fn check(case: &Case, obs: &mut Obs) -> Verdict {
 fn col_pos() -> BoxedStrategy<u32> {
     prop_oneof![
         5 => 1u32..=12,
-        2 => prop::sample::select(vec![1u32, 2, 26, 27, 52, 702, 703, 16370, 16375]),
-        1 => 1u32..=16375,
+        2 => prop::sample::select(vec![1u32, 2, 26, 27, 52, 702, 703, 16370, 16375, 16379, 16380, 16382, 16383, 16384]),
+        1 => 1u32..=16384,
     ]
     .boxed()
 }
@@ -719,8 +779,16 @@ fn strategy(t: Tier) -> BoxedStrategy<Case> {
         1 => style_set(fams, muts, max_styles, true),
     ];
     let cell = (any::<u8>(), col_pos(), row_pos(), any::<u16>(), any::<bool>()).prop_map(|(sheet, col, row, style, value)| CellT { sheet, col, row, style, value });
-    let row = (any::<u8>(), row_pos(), prop::option::weighted(0.8, any::<u16>()), prop::option::weighted(0.6, f64_from(&HEIGHTS)), opt_b())
-        .prop_map(|(sheet, row, style, height, hidden)| RowT { sheet, row, style, height, hidden });
+    // combo 0/1: zero height together with hidden / explicitly not hidden
+    let row = (any::<u8>(), row_pos(), prop::option::weighted(0.8, any::<u16>()), prop::option::weighted(0.6, f64_from(&HEIGHTS)), opt_b(), 0u8..12)
+        .prop_map(|(sheet, row, style, height, hidden, combo)| {
+            let (height, hidden) = match combo {
+                0 => (Some(Num(0.0)), Some(true)),
+                1 => (Some(Num(0.0)), Some(false)),
+                _ => (height, hidden),
+            };
+            RowT { sheet, row, style, height, hidden }
+        });
     let col = (
         any::<u8>(),
         col_pos(),
@@ -731,17 +799,26 @@ fn strategy(t: Tier) -> BoxedStrategy<Case> {
         opt_b(),
         prop_oneof![2 => Just(0u8), 4 => 1u8..=4],
         any::<u16>(),
+        0u8..12,
     )
-        .prop_map(|(sheet, col, run, style, width, hidden, best_fit, neighbour, neighbour_style)| ColT {
-            sheet,
-            col,
-            run,
-            style,
-            width,
-            hidden,
-            best_fit,
-            neighbour,
-            neighbour_style,
+        .prop_map(|(sheet, col, run, style, width, hidden, best_fit, neighbour, neighbour_style, combo)| {
+            // combo 0/1: zero width together with hidden / explicitly not hidden
+            let (width, hidden) = match combo {
+                0 => (Some(Num(0.0)), Some(true)),
+                1 => (Some(Num(0.0)), Some(false)),
+                _ => (width, hidden),
+            };
+            ColT {
+                sheet,
+                col,
+                run,
+                style,
+                width,
+                hidden,
+                best_fit,
+                neighbour,
+                neighbour_style,
+            }
         });
     (
         styles,
@@ -786,4 +863,118 @@ fn subs() -> Vec<Box<dyn DynSub>> {
         check,
         max_shrink_iters: 3000,
     })]
+}
+
+// ---------------------------------------------------------------------------------------
+// "big" leg: table sizes around and far beyond 256 / 65 536 entries
+
+/// A deterministic workbook with `n` pairwise different styles: the product of rotation
+/// (181) x horizontal (8) x vertical (5) x wrap (2) x protection (4) x font (3), walked by
+/// index, plus a fill / number format that depends on the index.  Alignment and protection
+/// live in the xf itself, so cellXfs grows to n+2 while the component tables stay small
+/// (the library's interning is quadratic in the table size).
+#[derive(Debug, Clone, Serialize, Deserialize)]
+pub struct BigCase {
+    pub n: u32,
+    pub two_phase: bool,
+    pub light: bool,
+}
+
+fn big_case(b: &BigCase) -> Case {
+    let mut styles = Vec::with_capacity(b.n as usize);
+    for i in 0..b.n {
+        let mut s = StyleSpec::default();
+        s.align = Some(AlignSpec {
+            rotation: Some(i % 181),
+            horizontal: Some((i / 181 % 8) as u8),
+            vertical: Some((i / 1448 % 5) as u8),
+            wrap: Some(i / 7240 % 2 == 1),
+        });
+        s.prot = match i / 14480 % 4 {
+            0 => None,
+            1 => Some(ProtSpec { locked: true, hidden: true }),
+            2 => Some(ProtSpec { locked: false, hidden: false }),
+            _ => Some(ProtSpec { locked: false, hidden: true }),
+        };
+        // font block: default font, then two other names (mutate k=0 picks FONT_NAMES[variant])
+        let font = i / 57920 % 3;
+        if font > 0 {
+            s = mutate(&s, 0, font as u8);
+        }
+        // sprinkled italic (never collides with the blocks above: it only adds an attribute)
+        if i % 5 == 1 {
+            s = mutate(&s, 3, 0);
+        }
+        if i % 7 == 3 {
+            s = mutate(&s, 9, (i % 3) as u8);
+            s = mutate(&s, 8, 1);
+        }
+        if i % 11 == 5 {
+            s.numfmt = Some(NumFmtSpec::Code(CUSTOM_CODES[(i / 11) as usize % CUSTOM_CODES.len()].to_string()));
+        }
+        styles.push(s);
+    }
+    Case {
+        styles,
+        sheets: 1,
+        cells: Vec::new(),
+        rows: vec![RowT { sheet: 0, row: 1048576, style: Some(u16::MAX), height: Some(Num(0.0)), hidden: Some(true) }],
+        cols: vec![ColT { sheet: 0, col: 16380, run: 5, style: Some(0), width: Some(Num(0.0)), hidden: Some(true), best_fit: None, neighbour: 0, neighbour_style: 0 }],
+        light: b.light,
+        two_phase: b.two_phase,
+    }
+}
+
+fn run_big(b: &BigCase, obs: &mut Obs) -> Verdict {
+    let case = big_case(b);
+    // the leg is only worth its name if the n styles really are pairwise different
+    let distinct: std::collections::HashSet<StyleProj> = case.styles.iter().map(expected).collect();
+    if distinct.len() != case.styles.len() {
+        eprintln!("HARNESS-NOTE: C05 big leg n={}: only {} pairwise different styles", b.n, distinct.len());
+        return Verdict::Discard(format!("big case n={} has only {} distinct styles", b.n, distinct.len()));
+    }
+    match guard(|| check(&case, obs)) {
+        Ok(v) => v,
+        Err(p) => Verdict::fail(format!("harness-panic:{}", p.site()), p.short()),
+    }
+}
+
+fn extra(ctx: &Ctx) {
+    // 254..258 straddle the one-byte boundary, 65 534..65 538 the two-byte boundary of an xf index
+    let mut legs = vec![
+        BigCase { n: 254, two_phase: false, light: false },
+        BigCase { n: 258, two_phase: true, light: true },
+        BigCase { n: 300, two_phase: false, light: true },
+    ];
+    if ctx.tier == Tier::Thorough {
+        legs.push(BigCase { n: 4100, two_phase: true, light: false });
+        legs.push(BigCase { n: 65_600, two_phase: false, light: false });
+    }
+    let t0 = std::time::Instant::now();
+    let ev0 = legs.len() as u64;
+    for b in &legs {
+        let mut obs = Obs::default();
+        let v = run_big(b, &mut obs);
+        ctx.count_case(fnv(serde_json::to_string(b).unwrap().as_bytes()) ^ fnv(b"big"), obs.nontrivial);
+        ctx.add_class(&format!("big/styles:{}", b.n), 1);
+        ctx.add_sample(serde_json::json!({"sub": "big", "case": b}));
+        ctx.judge("big", b, v);
+    }
+    ctx.sub_reports.lock().unwrap().push(serde_json::json!({
+        "sub": "big",
+        "evaluations": ev0,
+        "wall_s": t0.elapsed().as_secs_f64(),
+    }));
+}
+
+fn replay_extra(_ctx: &Ctx, sub: &str, case: &serde_json::Value) -> Option<Verdict> {
+    if sub != "big" {
+        return None;
+    }
+    let b: BigCase = match serde_json::from_value(case.clone()) {
+        Ok(b) => b,
+        Err(e) => return Some(Verdict::Discard(format!("cannot deserialise case: {}", e))),
+    };
+    let mut obs = Obs::default();
+    Some(run_big(&b, &mut obs))
 }
